@@ -88,6 +88,11 @@ pub trait Property: Sync {
     }
     fn cases_per_shard(&self, tier: Tier) -> u32;
     fn strategy(&self, tier: Tier) -> BoxedStrategy<Json>;
+    /// the strategy of one shard; shards beyond the first sixteen may draw from a different generator (added later,
+    /// so that the streams of the earlier shards stay what they were)
+    fn strategy_for_shard(&self, tier: Tier, _shard: usize) -> BoxedStrategy<Json> {
+        self.strategy(tier)
+    }
     /// deterministic cases run in addition to the generated ones (families, tables, regressions)
     fn fixed_cases(&self, _tier: Tier) -> Vec<Json> {
         vec![]
@@ -328,7 +333,7 @@ pub fn run_worker(p: &dyn Property, tier: Tier, shard: usize, nshards: usize, sk
     let seed = shard_seed(p.id(), base_seed(), shard, tier);
     let config = Config { failure_persistence: None, cases: total_gen as u32, ..Config::default() };
     let mut runner = TestRunner::new_with_rng(config, TestRng::from_seed(RngAlgorithm::ChaCha, &seed));
-    let strat = p.strategy(tier);
+    let strat = p.strategy_for_shard(tier, shard);
     let sample_every = (total_gen / 5).max(1);
     for i in 0..total_gen {
         let mut tree = match strat.new_tree(&mut runner) {
